@@ -246,9 +246,44 @@ func (w *world) hotClient(c *cClient) bool {
 	return false
 }
 
+func (w *world) hotLock(c *cClient) bool {
+	if len(w.presetAt) == 0 {
+		return false
+	}
+	for _, co := range c.allOpens() {
+		for _, s := range co.locks {
+			if w.hot(s) {
+				return true
+			}
+		}
+	}
+	return false
+}
+
 // hotActions are the requests that advance, or are checked against, the
-// seqid of a state ID.
-var hotActions = []string{kOpenDowngrade, kLocku, kLock, kClose, kOpen, kOpenDowngrade, kLocku, kLock, "retx", kWrite}
+// seqid of the kinds of state ID the client has next to the wrap-around.
+func (w *world) hotActions(c *cClient) []string {
+	var l []string
+	if w.hotLock(c) {
+		l = append(l, kLocku, kLock, kLocku, kLock)
+	}
+	for _, co := range c.allOpens() {
+		if w.hot(co.sid) {
+			l = append(l, kOpenDowngrade, kOpen, kClose, kOpenDowngrade)
+			break
+		}
+	}
+	return append(l, "retx", kWrite, kRead, "retx_diff_sid")
+}
+
+func contains(l []string, x string) bool {
+	for _, y := range l {
+		if x == y {
+			return true
+		}
+	}
+	return false
+}
 
 func prevSeq(s uint32) uint32 {
 	if s <= 1 {
